@@ -66,7 +66,7 @@ func checkC04(c gen.ProgCase) Verdict {
 	// known finding F14 (truncate counts UTF-16 units in JavaScript, characters in Go): a difference
 	// between the backends in a program that truncates and has characters outside the BMP is put down to
 	// it (and counted); such programs are still judged when the backends agree
-	f14 := !witness && findingOpen("F14") && hasAstral(fmt.Sprint(srcs, c.Data, c.IJ)) && strings.Contains(strings.Join(srcs, ""), "truncate")
+	f14 := !witness && findingOpen("F14") && hasAstral(fmt.Sprint(srcs, c.Data, c.IJ, c.Prog.Globals)) && strings.Contains(strings.Join(srcs, ""), "truncate")
 	cb, err, pn := compileBundle(names, srcs, c.Prog.Globals)
 	if err != nil || pn != nil {
 		return excluded("does not compile (C01/C02 matter)")
